@@ -413,6 +413,8 @@ func hasSpecial(url string) string {
 //	own      expressions registered for the subject itself (ownAll: it registered manage-all)
 //	others   everything else registered in the same configuration (incl. manage-all)
 func judge(r *ev.Recorder, kind string, all []spec, s spec, q request, engine bool, own []string, ownAll, othersMatch bool) *caseRepr {
+	r.Case() // one evaluation per (subject, request) pair
+
 	mk := func(note string) *caseRepr {
 		return &caseRepr{Kind: kind, Configured: all, Subject: s, Request: q, Registered: own, Note: note}
 	}
